@@ -82,7 +82,7 @@ def prepare(case):
     ps = net.build(dict(case["spec"], exact=False, nprof=case["nprof"]))
     for l in ps.lines:
         l.fail_rate_per_year = case["rate"]
-        l.repair_time_dist = StatDist(StatDistType.UNIFORM_FLOAT, UniformParameters(min_val=1.0, max_val=4.0))
+        l.repair_time_dist = StatDist(StatDistType.UNIFORM_FLOAT, UniformParameters(min_val=1.0, max_val=case.get("rep_max", 4.0)))
     for b in ps.buses:
         if b.name != "B0" and case["trafo_rate"]:
             b.fail_rate_per_year = case["trafo_rate"]
@@ -143,6 +143,17 @@ def handler(case):
     stop = TimeStamp(day=total_min // 1440, hour=(total_min % 1440) // 60, minute=total_min % 60)
     step = Time(float(F(case["dt"]) * 3600 / c17.FACT[u]), c17.U(u))
     kw = dict(start_time=start, stop_time=stop, time_step=step, time_unit=c17.U(u))
+    if case.get("midnight_faults"):
+        # through the documented callback: a short line fault that begins in every increment that ends at a midnight
+        dth = F(case["dt"])
+        def cb(ps, prev_time, curr_time):
+            k = int(round(curr_time.get_hours() / float(dth)))
+            if (F(st[1]) + F(st[2], 60) + k * dth) % 24 == 0:
+                l = ps.lines[0]
+                if not l.failed:
+                    l.repair_time_dist = net.FixedDist(float(dth))
+                    l.fail(curr_time - prev_time)
+        kw["callback"] = cb
     sig = []
     for entry in case["entries"]:
         ps, sim = prepare(case)
@@ -225,6 +236,15 @@ def gen(rng, n, nh=0):
                         {"a": [0, rng.randrange(len(fds[0]["parent"]))], "b": [1, len(fds[1]["parent"]) - 1], "open_at_build": True}]
         cases.append({"kind": "run", "spec": spec, "unit": 3, "dt": "1", "hours": "36", "nprof": 24, "start": [0, rng.randint(0, 23), 0],
                       "seed": rng.randint(0, 10 ** 6), "rate": 1500.0, "trafo_rate": 0.0, "entries": ["seq/nosave", "mc-debug/nosave"]})
+    for q in range(max(4, n // 4)):
+        # hourly steps reported in days / weeks over several midnights, EV parks, frequent failure onsets (the hour-of-day table of a
+        # park is read at every onset; midnights written in days carry floating-point noise)
+        spec = net.rand_feeder_spec(rng, max_lines=4, ctrl="manual", allow_mg=False, allow_tie=False, nfeed=1)
+        fd = spec["feeders"][0]
+        fd["ev"] = {str(rng.randrange(len(fd["parent"]))): {"hours": list(range(24)), "table": [str(rng.choice([F(1), F(3), F(5, 2)])) for _ in range(24)], "v2g": True}}
+        cases.append({"kind": "run", "spec": spec, "unit": [4, 4, 5, 5][q % 4], "dt": "1", "hours": "124", "nprof": 24,
+                      "start": [0, [22, 7, 2, 23][q % 4] if q < 4 else rng.randrange(24), 0], "seed": rng.randint(0, 10 ** 6), "rate": rng.choice([0.0, 300.0]), "trafo_rate": 0.0, "rep_max": 1.5, "midnight_faults": True,
+                      "entries": ["seq/nosave", "mc-debug/nosave"][: 1 + q % 2]})
     for _ in range(nh):
         # steps that are not binary fractions of the reporting unit: 1 h in days / weeks, 20 / 10 / 6 min in hours, 1 s in hours ...
         u, dt_s = rng.choice([(4, 3600), (4, 1800), (5, 3600), (3, 1200), (3, 600), (3, 360), (3, 60), (2, 20), (2, 1), (3, 1), (4, 7200), (3, 3600), (2, 60)])
